@@ -34,13 +34,32 @@ CHECKS = {
  "C20": dict(tech="runtime monitoring: invariant walker over the arena at every quiescent point (hook H2) and after every history step",
    text="Exploration: iterative walker checks disjoint acyclic forest, no orphans, no edge into tombstones, prev/next/child consistency, to_parent/to_document/key_of agreement, line ids in range and unshared, nodes_map liveness, ids never reused, DFS order == source block order; runs on every graph the code builds (incl. handler-local patch graphs).",
    note="walker uses public API + read-only H3 dumps", ref="§3 C20"),
+ "C08": dict(tech="runtime monitoring: rename WorkspaceEdit applied to a library copy by an independent edit model, then re-scanned by the independent link resolver",
+   text="Exploration: every internal link occurrence as rename site x {free, taken, sub/free, free.md} names, optionally after every note was re-sent (incrementally built index); applied edit judged for: new note present with old content, old gone, all links to old now resolve to new with text preserved/title, other links and unrelated notes untouched, taken name refused.",
+   note="libraries with sub-directories carry block references only; links in table cells and piped wiki links excluded from clean mode (open findings)", ref="§3 C08"),
+ "C09": dict(tech="runtime monitoring: every offered extract/inline code action at every line resolved over the real LSP loop (disk-backed server, real key generator, H4 forced collisions), edits applied by an independent model, conservation oracles + inverse round trip",
+   text="Exploration: fresh key (H4 forces the first candidates to be existing notes), block multiset conserved (+1 reference per extracted section / -1 reference and deleted note per inline), extracted note == subtree with promoted heading, remaining blocks keep order, links resolve to the same notes from the new location, extract(first sub-section) then inline == original bytes.",
+   note="starts from formatted text; sub-directory libraries carry block references only", ref="§3 C09"),
+ "C10": dict(tech="runtime monitoring: every offered list/section conversion at every line over the real LSP loop, conservation-in-order oracle + inverse-action round trips",
+   text="Exploration: block word-runs, links and nested blocks conserved in order, other notes untouched, change-list-type twice == original bytes, section-to-list then list-to-sections == original bytes for sections not adjacent to a list.",
+   note="the round trip for a section with a preceding sibling section is an open finding (exact signature)", ref="§3 C10"),
+ "C11": dict(tech="runtime monitoring: hook-driven scheduler (H1 gates park request workers at started / computed / exited) enumerating interleavings exhaustively for k<=2 (3 thorough) + hook-free floods; last-writer-wins register oracle at quiescence",
+   text="Exhaustive over the hook-distinguishable interleavings for k in-flight requests (k<=2 quick: 148 schedules, k<=3 thorough) x {didChange, didSave} x {same, other note} x release orders; plus floods of unsynchronised mixed traffic judged on final state; every schedule also issues a request right after the notification and checks it sees the new text.",
+   note="interleavings finer than the hook points are only sampled by the OS scheduler in the flood variant", ref="§3 C11"),
+ "C12": dict(tech="runtime monitoring: exactly-once response monitor keyed on hook event Exited(id) + liveness probe against an independent model after every adversarial request",
+   text="Exploration: random sessions over every method the router handles x hostile parameter classes; outcome decided when the worker exits (never by timeout); liveness probe after each request; loop must end Ok on shutdown/exit.",
+   note="in-process server over Connection::memory(); no network path reachable", ref="§3 C12"),
+ "C13": dict(tech="runtime monitoring: LSP answers at probed positions vs spans from the independent offset-tracking scan (UTF-16 columns, LF and CRLF)",
+   text="Exploration: boundary probes (+-1) around every link, line starts/ends, past EOL/EOF; definition / prepareRename act on link L iff inside its span, rename range == destination span, code actions at a line match the covering block, returned locations (symbols, hints, references) name the right line; four classes {LF,CRLF} x {ASCII, multi-byte/astral}.",
+   note="prepareRename ranges for titled / marked-up / wiki links and links on continuation lines of list items are open findings with exact signatures", ref="§3 C13"),
 }
+
 
 
 NOT_YET = {
  "C03": "check under construction",
- "C08": "check under construction", "C09": "check under construction", "C10": "check under construction",
- "C11": "check under construction", "C12": "check under construction", "C13": "check under construction",
+
+
  "C14": "check under construction", "C16": "check under construction",
  "C19": "check under construction",
 
